@@ -24,6 +24,40 @@ def vanished_variable(body_text, residual):
     return bool(used - left)
 
 
+def let_bound_in_if(tree):
+    """does some `if` mention a name bound by an enclosing let / let* / assign form?  (C16-F2: such a name
+    reaches the evaluator's compiled `if` fragment as its renamed identifier; depending on what surrounds it
+    the REPL prints the quoted identifier or folds the identifier's BYTES through the enclosing operators)."""
+    def syms(t, acc):
+        if t[0] == "sym":
+            acc.add(t[1])
+        elif t[0] == "list":
+            for x in t[1]:
+                syms(x, acc)
+            if t[2] is not None:
+                syms(t[2], acc)
+        return acc
+
+    def binders(t):
+        it = t[1]
+        kw = it[0][1] if it and it[0][0] == "sym" else None
+        if kw in ("let", "let*") and len(it) == 3 and it[1][0] == "list":
+            return syms(("list", [b[1][0] for b in it[1][1] if b[0] == "list" and b[1]], None), set())
+        if kw in ("assign", "assign-inline", "assign-lambda") and len(it) >= 2:
+            return syms(("list", it[1:-1:2], None), set())
+        return set()
+
+    def walk(t, bound):
+        if t[0] != "list":
+            return False
+        it = t[1]
+        if it and it[0] == ("sym", "if") and bound & syms(t, set()):
+            return True
+        b = bound | binders(t)
+        return any(walk(x, b) for x in it)
+    return walk(tree, set())
+
+
 def wrap(params, helpers, body_text, sigil="*standard-cl-21*"):
     hs = " ".join(progen.text(h) for h in helpers)
     return f"(mod {progen.text(params)} (include {sigil}) {hs} {body_text})"
@@ -112,6 +146,8 @@ def run(chk):
                     sig = "repl:let-bound-name-quoted"
                 elif not closed and vanished_variable(progen.text(body), residual):
                     sig = "repl:free-variable-folded-as-constant"
+                elif let_bound_in_if(("list", list(helpers) + [body], None)):
+                    sig = "repl:let-bound-name-in-if"
                 if compilers.rest_call_of_binding_inline(p["tree"]):
                     sig = "compile:inline-rest-binding-form"
                 chk.fail("oracle", sig,
